@@ -320,6 +320,8 @@ where
 
         let start_states = RE_WS
             .split(declaration_parameters)
+            // (`RE_WS` matches one white space character: a run of them gives empty pieces.)
+            .filter(|name| !name.is_empty())
             .map(|name| {
                 let off = name.as_ptr() as usize - self.src.as_ptr() as usize;
                 i = off + name.len();
